@@ -277,6 +277,10 @@ def to_str(ex, st, v):
             yield st1, SV("str", f(w.t))
         elif isinstance(w, ExcVal):
             yield st1, SV("str", z3.String(fresh_name("excmsg")))
+        elif isinstance(w, SSeq):
+            # rendering of a list of unknown length: some text, a function of the list
+            f = ex.uf("str_seq", z3.IntSort(), w.arr.sort(), z3.StringSort())
+            yield st1, SV("str", f(w.n, w.arr))
         elif isinstance(st1.deref(w), Obj):
             # __str__ defined in source?
             o = st1.deref(w)
@@ -749,6 +753,13 @@ def compare(ex, st, op, a, b):
 def contains(ex, st, container, item):
     U = _U()
     container = st.deref(container)
+    if isinstance(container, SV) and isinstance(container.sort, tuple) and container.sort[0] == "opt":
+        for st1, w in ex.narrow(st, container):
+            if w is None:
+                yield ex.raise_(st1, "TypeError")
+            else:
+                yield from contains(ex, st1, w, item)
+        return
     if isinstance(container, DictViewBase):
         d = st.get(container.d)
         if container.kind == "keys":
@@ -802,6 +813,8 @@ def contains(ex, st, container, item):
             raise U("membership in open kwargs")
         else:
             yield st, False
+    elif isinstance(container, Opaque) and (container.kind, "contains") in ex.db.opaque_ops:
+        yield from ex.db.opaque_ops[(container.kind, "contains")](ex, st, container, item)
     elif isinstance(container, Opaque):
         f = ex.uf("contains_" + container.kind, z3sort(("u", container.kind)), z3sort(natural_sort(item) or "str"), z3.BoolSort())
         yield st, SV("bool", f(container.t, lift(item)))
@@ -1248,6 +1261,9 @@ def getitem(ex, st, ref, idx):
     if isinstance(v, (TypeRef, ClassRef)):
         yield st, v  # generic alias  list[int]
         return
+    if isinstance(v, Opaque) and (v.kind, "getitem") in ex.db.opaque_ops:
+        yield from ex.db.opaque_ops[(v.kind, "getitem")](ex, st, v, idx)
+        return
     if isinstance(v, Opaque) and v.kind in ("Any", "PyDict", "PyList"):
         from .contracts import pure_result
 
@@ -1638,6 +1654,12 @@ def isinstance_check(ex, st, ref, tp):
             if isinstance(spec, bool):
                 return spec
             f = ex.uf(f"isinstance_{v.kind}_{name}", z3sort(("u", v.kind)), z3.BoolSort())
+            group = ex.db.exclusive_types.get(v.kind, ())
+            if name in group:
+                for other in group:
+                    if other != name and ex.db.opaque_isinstance(v.kind, other) == "uf":
+                        g = ex.uf(f"isinstance_{v.kind}_{other}", z3sort(("u", v.kind)), z3.BoolSort())
+                        axiom(z3.Not(z3.And(f(v.t), g(v.t))))
             return SV("bool", f(v.t))
         raise U(f"isinstance of opaque {v.kind} against {name}")
     if isinstance(v, (ClassRef, TypeRef)):
